@@ -64,9 +64,10 @@ fn corrupt(lines: &[String], r: &mut Rng) -> Option<(Vec<String>, usize)> {
 
 pub fn run(ctx: &mut Ctx) {
     let prop = "C13";
-    ctx.ev.rule = "valid stream: generated transaction lists of all seven kinds (decimals of scale 0–28, mantissas to 2^96−1, tickers incl. 'SELL', 'TAX', '10', currencies incl. XXX/XTS/BHD), rendered with random non-empty blank runs (spaces/tabs, none after '@'), per-character case of keywords/currency codes/tickers, omitted GBP and zero clauses, leading blanks, blank lines, comment lines, trailing '#' comments after any complete transaction, LF/CRLF/CR per line or uniform, with/without final newline: the real parser must return exactly the generated list (GBP for omitted currency, zero for omitted clauses, tickers upper-cased) and agree with the Lean model. hostile stream: one token of one line of such a file deleted, duplicated, replaced by garbage, glued to its neighbour or swapped: accept/reject must agree with the model, the reported line (pest's '--> L:C') must be the corrupted line, and if still accepted the parsed list must equal the model's. Non-trivial = files with ≥ 2 transactions and at least one non-LF line ending or comment; distinct by text.".into();
+    ctx.ev.rule = "valid stream: generated transaction lists of all seven kinds (decimals of scale 0–28, mantissas to 2^96−1, tickers incl. 'SELL', 'TAX', '10', currencies incl. XXX/XTS/BHD), rendered with random non-empty blank runs (spaces/tabs, none after '@'), per-character case of keywords/currency codes/tickers, omitted GBP and zero clauses, leading blanks, blank lines, comment lines, trailing '#' comments after any complete transaction, LF/CRLF/CR per line or uniform, with/without final newline: the real parser must return exactly the generated list; a sample is also dealt over 2–3 files (earlier files mostly without a final newline, ending in a bare line or a comment) and read by the real `cgt-tool parse a b …`, which must print exactly the list (GBP for omitted currency, zero for omitted clauses, tickers upper-cased) and agree with the Lean model. hostile stream: one token of one line of such a file deleted, duplicated, replaced by garbage, glued to its neighbour or swapped: accept/reject must agree with the model, the reported line (pest's '--> L:C') must be the corrupted line, and if still accepted the parsed list must equal the model's. Non-trivial = files with ≥ 2 transactions and at least one non-LF line ending or comment; distinct by text.".into();
     let mut r = Rng::new(ctx.seed ^ 0xC13);
     let n = ctx.n(600, 40_000);
+    let mut cli_left: u32 = if ctx.tier == Tier::Quick { 16 } else { 200 };
     for i in 0..n {
         ctx.ev.evaluations += 1;
         let k = 1 + r.below(6) as usize;
@@ -75,6 +76,37 @@ pub fn run(ctx: &mut Ctx) {
         if k >= 2 && (f.text.contains('\r') || f.text.contains('#')) { ctx.ev.nontrivial.insert(f.text.clone()); }
         for e in &f.eols { ctx.ev.count(match *e { "\n" => "eol:LF", "\r\n" => "eol:CRLF", _ => "eol:CR" }); }
         let expect: Vec<Transaction> = txs.iter().map(|t| { let mut t = t.clone(); t.ticker = t.ticker.to_uppercase(); t }).collect();
+        // the same list dealt over two or three files and read by the real `cgt-tool parse a.cgt b.cgt …`:
+        // each file in its own layout, the earlier ones without a final newline (bare last line, or a
+        // trailing / full-line comment last) three times in four
+        if cli_left > 0 && k >= 2 && crate::cli::available() {
+            cli_left -= 1;
+            ctx.ev.count("cli-multi-file-parses");
+            let sc = crate::cli::Scratch::new();
+            let parts = if k >= 3 && r.chance(1, 2) { 3 } else { 2 };
+            let mut names: Vec<String> = Vec::new();
+            let mut shown = String::new();
+            for pi in 0..parts {
+                let (lo, hi) = (pi * k / parts, (pi + 1) * k / parts);
+                let mut body = dslgen::render_file(&txs[lo..hi], &mut r, true).text;
+                if pi + 1 < parts && r.chance(3, 4) {
+                    while body.ends_with('\n') || body.ends_with('\r') { body.pop(); }
+                    match r.below(3) { 0 => {}, 1 => body.push_str("  # end of this part"), _ => body.push_str("\n# a closing comment line") }
+                }
+                let name = format!("part{pi}.cgt");
+                sc.write(&name, &body);
+                shown.push_str(&format!("# --- {name} (escaped): {:?}\n", body));
+                names.push(name);
+            }
+            let mut args: Vec<&str> = vec!["parse"];
+            for nm in &names { args.push(nm); }
+            let o = crate::cli::run(&sc, &args);
+            let want = serde_json::to_value(&expect).unwrap_or_default();
+            let got_cli: serde_json::Value = serde_json::from_slice(&o.stdout).unwrap_or_default();
+            if o.code != Some(0) || got_cli != want {
+                ctx.ev.violation("oracle", format!("`cgt-tool parse` over {parts} files (exit {:?}) does not give the {} transactions the files contain: {}", o.code, expect.len(), o.stderr.lines().next().unwrap_or("different list")), format!("# property C13\n# oracle: cgt-tool parse part0.cgt part1.cgt …\n{shown}"));
+            }
+        }
         let got = impl_parse(&f.text);
         match &got {
             Ok(g) => {
